@@ -113,6 +113,12 @@ func (o *Op) String() string {
 	if o.TargetClass != "" {
 		fmt.Fprintf(&b, " ->%s", o.TargetClass)
 	}
+	if o.IfNoneMatchStar {
+		b.WriteString(" if-none-match=*")
+	}
+	if o.IfMatch != nil {
+		fmt.Fprintf(&b, " if-match=%s", *o.IfMatch)
+	}
 	if o.Intent != "" {
 		fmt.Fprintf(&b, " [%s]", o.Intent)
 	}
